@@ -419,8 +419,13 @@ class Xfrm(NetlinkProtocol):
 
         cls.create_sa(src_selector, dst_selector, src_port, dst_port, child_sa.outbound_spi, ip_proto, ipsec_proto,
                       child_sa.mode, ike_sa.my_addr, ike_sa.peer_addr, encr_alg, sk_ei, integ_alg, sk_ai, lifetime)
-        cls.create_sa(dst_selector, src_selector, dst_port, src_port, child_sa.inbound_spi, ip_proto, ipsec_proto,
-                      child_sa.mode, ike_sa.peer_addr, ike_sa.my_addr, encr_alg, sk_er, integ_alg, sk_ar, lifetime)
+        try:
+            cls.create_sa(dst_selector, src_selector, dst_port, src_port, child_sa.inbound_spi, ip_proto, ipsec_proto,
+                          child_sa.mode, ike_sa.peer_addr, ike_sa.my_addr, encr_alg, sk_er, integ_alg, sk_ar, lifetime)
+        except NetlinkError:
+            # the kernel refused the second SA: remove the first one, which is the only thing installed here
+            cls.delete_sa(ike_sa.peer_addr, ipsec_proto, child_sa.outbound_spi)
+            raise
 
     @classmethod
     def get_socket(cls):
